@@ -271,7 +271,7 @@ HRow ==
             \* the counter does not move, the call fails
             /\ emit' = <<DwCb("dw.row", "err", h.written)>>
             /\ h' = Adv(h)
-       ELSE /\ emit' = <<Rv(MsgDataRow(Op.cells)) , DwCb("dw.row", "nil", h.written + 1)>>
+       ELSE /\ emit' = <<Rv(MsgDataRow(Op.cells, h.rfmt)), DwCb("dw.row", "nil", h.written + 1)>>
             /\ h' = [Adv(h) EXCEPT !.written = @ + 1]
     /\ UNCHANGED <<cfg, phase, ssl, mwi, cparams, inq, eof, faulted, stmts, portals, skip, hq>>
 
@@ -366,10 +366,13 @@ DoParse ==
             /\ UNCHANGED skip
     /\ UNCHANGED <<cfg, phase, ssl, mwi, cparams, eof, faulted, portals, hq, h>>
 
-\* the parameters of a Bind as the statement function will see them
+\* The parameters of a Bind as the statement function will see them: same
+\* count and order, byte-identical (dig), NULL distinguished, tagged by the
+\* format rule, and decoding (scan) to the value the client encoded.
 Tagged(m) == [i \in DOMAIN m.params |->
                 IF m.params[i].null THEN [fmt |-> FormatOf(m.pfmt, i), null |-> TRUE]
-                ELSE [fmt |-> FormatOf(m.pfmt, i), null |-> FALSE, dig |-> m.params[i].dig, scan |-> TRUE]]
+                ELSE [fmt |-> FormatOf(m.pfmt, i), null |-> FALSE, dig |-> m.params[i].dig,
+                      scan |-> m.params[i].scan]]
 
 DoBind ==
     /\ Reading("ready") /\ ~skip /\ Head1.t = "B"
